@@ -55,7 +55,7 @@ def demo_cmd(d, wt):
         head = open(t).read()[:4000]
         pk = meta.get("demo_pkg_dir")
         if not pk:
-            mm = re.search(r"[Cc]opy (?:this file )?(?:into|to)\s*:?\s+`?repo/([\w./-]+?)(?:/demo_test\.go)?/?`?\s", head)
+            mm = re.search(r"[Cc]opy (?:this file )?(?:into|to)\s*:?\s+`?repo/([\w./-]+?)(?:/\w+_test\.go)?/?`?\s", head)
             pk = mm.group(1) if mm else None
         if not pk:
             sys.exit("cannot find package dir for demo_test.go in " + d)
